@@ -8,7 +8,7 @@ ATOMS = ['0', '1', '2', '0.0', '1.5', '""', '"a"', '#t', '#f', 'x', 'top.cnt',
 OPS = ['if', 'do', '+', '*', '&&', '||']
 NEIGH = ['-', '=', '!', 'list', 'print', '>', 'first']
 
-SETUP = ['(define x 3)', '(define y 0)', '(define s "")', '(define xs (list 1 2))', "(defmacro q8 [e] `(list ',e ,e))"]
+SETUP = ['(define x 3)', '(define y 0)', '(define s "")', '(define xs (list 1 2))', "(defmacro q8 [e] `(list ',e ,e))", '(define gs "lk")']
 PROBE = '(list x y INDEX)'
 
 
@@ -38,7 +38,12 @@ DYN = ['x', 's', 'xs', 'top.cnt', '(do (print "p") 3)', '(do (step) 0)', '(do (s
 
 def gen_sensitive(rng):
     """shapes on which the rewrites decide: literal conditions, literal prefixes followed by run-time operands"""
-    k = rng.choice(['if', 'if', '+', '+', '*', '&&', '||', 'do', 'nest', 'ifbool', 'fsum', 'typed', 'emptydo', 'evalmacro', 'formarg', 'casekey'])
+    k = rng.choice(['if', 'if', '+', '+', '*', '&&', '||', 'do', 'nest', 'ifbool', 'fsum', 'typed', 'emptydo', 'evalmacro', 'formarg', 'casekey', 'symarg'])
+    if k == 'symarg':
+        # neighbours that take a list operand as an expression to evaluate and a bare symbol as a name: what the pass makes of an operand
+        # keeps it an expression
+        e = rng.choice(['(do gs)', '(if #t gs "zz")', '(if 0 "zz" gs)', '(+ "l" "k")', '(do "lk")', '(do (do gs))'])
+        return rng.choice([f'(groups {e})', f'(length (groups {e}))', f'(in-groups (groups {e}) CG)', f'(list (groups {e}) (groups "lk"))'])
     if k == 'casekey':
         # the key of a case clause is data (it is compared as it stands, never evaluated): a constant expression written there is not folded
         e = rng.choice(['(+ 1 2)', '(* 2 3)', '(if #t 1 2)', '(do 5)', '(&& 1 2)', '(|| 0 0)', '(+ "a" "b")'])
